@@ -1,40 +1,85 @@
 package main
 
 // C09: package-level mutable state is where real races live.  This generator
-// enumerates, from the non-test Go sources of robfig/soy,
+// enumerates, from the non-test Go sources of robfig/soy, type-checked with go/types
+// (pkgvars_types.go: every identification below is by type-checked object or type,
+// never by name: shadowing, renamed imports, embedded fields and aliases in locals or
+// struct fields do not confuse it),
 //
-//   pkg_vars          every package-level `var` (blank ones excepted) with the
-//                     syntactic kind of its initialiser,
-//   pkg_var_writes    every statement of a function body that writes to (or takes
-//                     the address of) a package-level variable: assignments whose
+//   pkg_vars          every package-level `var` (blank ones excepted) with the kind of
+//                     its type / initialiser,
+//   pkg_var_writes    every statement of a function body (of any package, reachable or
+//                     not; function literals in initialisers included) that writes to or
+//                     takes the address of a package-level variable: assignments whose
 //                     left-hand side is rooted at the variable (V = .., V[k] = ..,
 //                     V.f = .., *V = .., op-assignments), ++/--, delete(V, ..),
-//                     copy(V, ..), range clauses assigning to it, &V,
+//                     copy(V, ..), range clauses assigning to it, &V; writes through a
+//                     local alias of it (write-via-alias) and calls that pass it (or
+//                     something reachable from it) to a function that writes through the
+//                     corresponding parameter (callee-writes-through),
 //   pkg_var_methods   every method called directly on a package-level variable
-//                     (V.m(..)): a method may mutate its receiver (sync.Pool.Put,
-//                     a cache's Store), so a new one has to be reviewed,
-//   shared_type_writes  every statement of the render / generation packages
-//                     (soyhtml, soyjs, template) that writes THROUGH a value of a
-//                     syntax-tree or registry type: an assignment rooted at a
-//                     parameter, receiver or local whose declared type is an
-//                     ast.*Node / template.Registry / template.Template /
-//                     soymsg.Bundle type, or an append to a slice that was
-//                     obtained from a field of such a value.
+//                     (V.m(..)), and every method of a foreign type called on a local
+//                     alias of one: a method may mutate its receiver (sync.Pool.Put, a
+//                     cache's Store), so a new one has to be reviewed,
+//   shared_type_writes  every statement of the render / generation packages (soyhtml,
+//                     soyjs, template) that writes THROUGH a value of a syntax-tree,
+//                     registry, template or message type (the named types of packages
+//                     ast, template, soymsg), directly (assign-through, incdec-through,
+//                     append-to, delete/copy/clear-through, sort-in-place) or by passing
+//                     it, or something reachable from it, to a function or method of ANY
+//                     package of the repository that may write through the corresponding
+//                     parameter or receiver (callee-writes-through; the "written
+//                     expression" of such a site is the callee, package:function, which a
+//                     refactoring of the caller does not change; the argument and the
+//                     innermost write are in tables.json and in the comments of
+//                     PkgState.v).  A write is listed once, where it enters the shared
+//                     structures: a caller further up, which only hands the value down to
+//                     a function that lists the site, does not list it again.
+//
+// How (pkgvars_flow.go, pkgvars_calls.go).  Every function of the repository gets a summary, the least fixed point of:
+// "may write through parameter i (receiver first), at the object it refers to or below its field f",
+// where a write is an assignment / op-assignment / ++ / -- whose left-hand side lies in memory reached
+// from the parameter through selectors, indexes, dereferences and slicings (a parameter of a
+// reference-free type has no such memory; a struct passed by value counts for its pointer, slice and
+// map components only), an append to / delete / copy / clear / sort of such a slice or map, or passing
+// such a value on to a callee that writes through the corresponding parameter; and "the result may
+// refer to memory of parameter i".  Values are tracked flow-insensitively per local variable, per field
+// of locally built structures and (for shared and package-level roots) per struct field of the whole
+// program (s.cached = node.Directives in one method, s.cached[0] = x in another).  A method call on an
+// interface value is resolved by class-hierarchy analysis to the methods of every named type of the
+// repository that implements the interface (T and *T).
+//
+// Limits (stated, not checked).  (1) Calls of function VALUES (fields such as Func.Apply and
+// PrintDirective.Apply, variables, parameters, method values) are not resolved: user functions, print
+// directives and formatter callbacks are assumed not to write through their arguments.  (2) Functions
+// outside the repository (standard library, third-party) are assumed not to write through their
+// arguments and to call nothing but the methods of their interface-typed parameters (for interface{}
+// parameters: String and Error, the fmt protocol), EXCEPT the in-place mutators of pvExternalWrites:
+// sort.Sort/Stable/Slice/SliceStable/Strings/Ints/Float64s, the builtins append, copy, delete, clear,
+// the functions of sync/atomic, every method of a sync / sync/atomic type, and the mutating methods of
+// bytes.Buffer and strings.Builder.  Their results are assumed to refer to nothing but their arguments.
+// (3) reflect and unsafe are not modelled.  (4) Values of types declared by packages of the repository
+// other than ast, template, soymsg (template data, data.Value) are not part of the shared structures,
+// wherever they were loaded from (a global's value embedded in a GlobalNode, a map passed as call data).
+// (5) One level of fields is distinguished below a parameter or a
+// locally built structure; deeper paths are merged.  (6) Files are enumerated under the default build
+// with the tag verif, and under the plain default build when that selects other files.  (7) The
+// environment variable PKGVARS_DEBUG=1 dumps the summaries to stderr.
 //
 // The lists are compared in Coq (Proofs/ConcGlobalsProofs.v) with the reviewed
-// lists of Model/ConcGlobals.v: a new package-level variable, a new write site or
-// a new method on a package-level variable breaks that lemma (a broken proof
-// obligation of C09) until it has been reviewed.  Line numbers are not part of the
-// tied lists (they go into tables.json for the evidence).
+// predicates of Model/ConcGlobals.v: a new package-level variable of a kind that can hold
+// state, a new write site or a new method on a package-level variable breaks that lemma
+// (a broken proof obligation of C09) until it has been reviewed.  Line numbers are not
+// part of the tied lists (they go into tables.json for the evidence).
 
 import (
 	"bytes"
 	"flag"
 	"fmt"
 	"go/ast"
-	"go/parser"
 	"go/printer"
 	"go/token"
+	"go/types"
 	"os"
 	"path/filepath"
 	"sort"
@@ -43,15 +88,12 @@ import (
 
 func init() { register("90-pkgvars", (*gen).pkgVars) }
 
-type pvFile struct {
-	dir  string
-	name string
-	f    *ast.File
-}
+type pvVar struct{ Dir, Name, Kind, File string }
 
 type pvSite struct {
 	Dir, Func, Var, Kind, File string
 	Line                       int
+	Via                        string `json:",omitempty"` // callee-writes-through: the callee and the write in it
 }
 
 func pvExprString(fset *token.FileSet, e ast.Node) string {
@@ -64,571 +106,190 @@ func pvExprString(fset *token.FileSet, e ast.Node) string {
 func pvComment(s string) string {
 	s = strings.ReplaceAll(s, "(*", "( *")
 	s = strings.ReplaceAll(s, "*)", "* )")
+	s = strings.ReplaceAll(s, "\n", " ")
 	return strings.ReplaceAll(s, "\"", "'")
 }
 
-// syntactic kind of a package-level variable
-func pvKind(fset *token.FileSet, vs *ast.ValueSpec, i int) string {
+// the function or method a call expression calls, when that is statically known
+func pvStaticCallee(info *types.Info, call *ast.CallExpr) *types.Func {
+	var id *ast.Ident
+	switch f := ast.Unparen(call.Fun).(type) {
+	case *ast.Ident:
+		id = f
+	case *ast.SelectorExpr:
+		id = f.Sel
+	}
+	if id == nil {
+		return nil
+	}
+	fn, _ := info.Uses[id].(*types.Func)
+	return fn
+}
+
+// kind of a package-level variable: what its type can hold, then how it is initialised.  A variable
+// whose type is or contains a pool, a lock, a Once, an atomic, a channel or a function is loud however
+// its initialiser is spelled; a *regexp.Regexp made by regexp.MustCompile, a *strings.Replacer, an error
+// made by errors.New, a *log.Logger, a reflect.Type, a flag are the objects documented safe for
+// concurrent use; then literals and makes by the type of the literal.
+func (pt *pvTypes) varKind(p *pvPkg, fset *token.FileSet, vs *ast.ValueSpec, i int, obj *types.Var) string {
+	t := obj.Type()
+	var init ast.Expr
+	if i < len(vs.Values) {
+		init = ast.Unparen(vs.Values[i])
+	} else if len(vs.Values) > 0 {
+		return "call" // var a, b = f()
+	}
+	var initCall *ast.CallExpr
+	if ce, ok := init.(*ast.CallExpr); ok {
+		initCall = ce
+	}
+	isMake := func(ce *ast.CallExpr) bool {
+		if id, ok := ast.Unparen(ce.Fun).(*ast.Ident); ok {
+			if b, ok := p.info.Uses[id].(*types.Builtin); ok && b.Name() == "make" {
+				return true
+			}
+		}
+		return false
+	}
+	if sync, pool := pt.containsSync(t, map[types.Type]bool{}); pool {
+		return "pool"
+	} else if sync {
+		return "sync"
+	}
+	switch t.Underlying().(type) {
+	case *types.Chan:
+		if initCall != nil && isMake(initCall) {
+			return "make-chan"
+		}
+		return "chan"
+	case *types.Signature:
+		return "func"
+	}
+	typeIs := func(t types.Type, pkg, name string) bool {
+		if ptr, ok := t.(*types.Pointer); ok {
+			t = ptr.Elem()
+		}
+		n := pvNamed(t)
+		return n != nil && pvPkgPathOf(n) == pkg && n.Obj().Name() == name
+	}
+	if initCall != nil {
+		if fn := pvStaticCallee(p.info, initCall); fn != nil && fn.Pkg() != nil {
+			switch full := fn.Pkg().Path() + "." + fn.Name(); {
+			case (full == "regexp.MustCompile" || full == "regexp.MustCompilePOSIX") && typeIs(t, "regexp", "Regexp"):
+				return "regexp"
+			case full == "strings.NewReplacer" && typeIs(t, "strings", "Replacer"):
+				return "replacer"
+			case full == "errors.New":
+				return "error"
+			case full == "log.New":
+				return "logger"
+			case full == "reflect.TypeOf":
+				return "reflect-type"
+			case fn.Pkg().Path() == "flag" && fn.Type().(*types.Signature).Recv() == nil:
+				return "flag"
+			}
+		}
+	}
+	if typeIs(t, "log", "Logger") {
+		return "logger"
+	}
 	typ := ""
 	if vs.Type != nil {
 		typ = pvExprString(fset, vs.Type)
+	} else {
+		typ = types.TypeString(t, func(q *types.Package) string { return q.Name() })
 	}
-	var init ast.Expr
-	if i < len(vs.Values) {
-		init = vs.Values[i]
-	}
-	is := ""
-	if init != nil {
-		is = pvExprString(fset, init)
-	}
-	switch {
-	case strings.HasPrefix(is, "regexp.MustCompile("):
-		return "regexp"
-	case strings.HasPrefix(is, "strings.NewReplacer("):
-		return "replacer"
-	case strings.HasPrefix(is, "errors.New("):
-		return "error"
-	case strings.HasPrefix(is, "log.New(") || typ == "*log.Logger":
-		return "logger"
-	case strings.HasPrefix(is, "reflect.TypeOf("):
-		return "reflect-type"
-	case strings.HasPrefix(is, "flag."):
-		return "flag"
-	case strings.Contains(typ, "sync.Pool") || strings.Contains(is, "sync.Pool"):
-		return "pool"
-	case strings.Contains(typ, "sync.") || strings.Contains(is, "sync."):
-		return "sync"
-	case strings.HasPrefix(typ, "func(") || strings.HasPrefix(typ, "func "):
-		return "func"
-	}
-	if cl, ok := init.(*ast.CompositeLit); ok {
-		switch t := cl.Type.(type) {
-		case *ast.MapType:
-			return "map-literal"
-		case *ast.ArrayType:
-			if t.Len == nil {
-				return "slice-literal"
-			}
-			return "array-literal"
-		default:
-			return "struct-literal"
-		}
-	}
-	if ce, ok := init.(*ast.CallExpr); ok {
-		// a conversion of a string literal: []byte("&amp;")
-		if at, ok := ce.Fun.(*ast.ArrayType); ok && at.Len == nil && len(ce.Args) == 1 {
-			if _, ok := ce.Args[0].(*ast.BasicLit); ok {
-				return "bytes-literal"
-			}
-		}
-		if id, ok := ce.Fun.(*ast.Ident); ok && id.Name == "make" && len(ce.Args) > 0 {
-			switch ce.Args[0].(type) {
-			case *ast.MapType:
-				return "make-map"
-			case *ast.ArrayType:
-				return "make-slice"
-			case *ast.ChanType:
-				return "make-chan"
-			}
-		}
-		return "call"
-	}
-	if u, ok := init.(*ast.UnaryExpr); ok && u.Op == token.AND {
-		return "pointer"
-	}
-	if init == nil {
-		if strings.HasPrefix(typ, "map[") {
+	switch x := init.(type) {
+	case nil:
+		switch t.Underlying().(type) {
+		case *types.Map:
 			return "nil-map"
-		}
-		if strings.HasPrefix(typ, "[]") {
+		case *types.Slice:
 			return "nil-slice"
 		}
 		return "zero:" + typ
+	case *ast.CompositeLit:
+		switch p.info.TypeOf(x).Underlying().(type) {
+		case *types.Map:
+			return "map-literal"
+		case *types.Slice:
+			return "slice-literal"
+		case *types.Array:
+			return "array-literal"
+		}
+		return "struct-literal"
+	case *ast.CallExpr:
+		if tv, ok := p.info.Types[x.Fun]; ok && tv.IsType() && len(x.Args) == 1 {
+			// a conversion of a constant string: []byte("&amp;")
+			if sl, ok := tv.Type.Underlying().(*types.Slice); ok {
+				if b, ok := sl.Elem().Underlying().(*types.Basic); ok && b.Kind() == types.Uint8 {
+					if av, ok := p.info.Types[x.Args[0]]; ok && av.Value != nil {
+						return "bytes-literal"
+					}
+				}
+			}
+		}
+		if isMake(x) {
+			switch t.Underlying().(type) {
+			case *types.Map:
+				return "make-map"
+			case *types.Slice:
+				return "make-slice"
+			}
+		}
+		return "call"
+	case *ast.UnaryExpr:
+		if x.Op == token.AND {
+			return "pointer"
+		}
 	}
-	if _, ok := init.(*ast.BasicLit); ok {
-		return "literal"
+	if tv, ok := p.info.Types[init]; ok && tv.Value != nil {
+		if _, basic := t.Underlying().(*types.Basic); basic {
+			return "literal" // a constant of a basic type
+		}
 	}
 	return "expr"
 }
 
-// the names of the types through which the renderer and the generator see shared, compiled state
-var pvSharedTypePkgs = map[string]bool{"ast": true, "template": true, "soymsg": true}
-
-// import name -> directory of the repository package, for one file
-func pvImports(f *ast.File) map[string]string {
-	imports := map[string]string{}
-	for _, im := range f.Imports {
-		p := strings.Trim(im.Path.Value, `"`)
-		const pre = "github.com/robfig/soy"
-		if !strings.HasPrefix(p, pre) {
-			continue
-		}
-		dir := strings.TrimPrefix(strings.TrimPrefix(p, pre), "/")
-		if dir == "" {
-			dir = "."
-		}
-		name := filepath.Base(p)
-		if im.Name != nil {
-			name = im.Name.Name
-		}
-		imports[name] = dir
-	}
-	return imports
-}
-
-func pvIsSharedType(fileDir string, imports map[string]string, e ast.Expr) bool {
-	switch t := e.(type) {
-	case *ast.StarExpr:
-		return pvIsSharedType(fileDir, imports, t.X)
-	case *ast.ArrayType:
-		return pvIsSharedType(fileDir, imports, t.Elt)
-	case *ast.Ellipsis:
-		return pvIsSharedType(fileDir, imports, t.Elt)
-	case *ast.SelectorExpr:
-		if id, ok := t.X.(*ast.Ident); ok && pvSharedTypePkgs[imports[id.Name]] {
-			return true
-		}
-	case *ast.Ident:
-		// inside package template, Registry and Template are the shared types themselves
-		if fileDir == "template" && (t.Name == "Registry" || t.Name == "Template") {
-			return true
-		}
-	}
-	return false
-}
-
 func (g *gen) pkgVars() {
-	// always defined, also when a file does not parse: a generator that defines nothing is charged to every property
+	// always defined, also when a file does not parse or type-check: a generator that defines nothing is charged to every property
 	g.p("(* the package-level state of the sources is in Generated/PkgState.v *)\n")
 	g.p("Definition pkg_state_generated : bool := true.\n")
-	var files []pvFile
-	fset := token.NewFileSet()
-	filepath.Walk(g.repo, func(path string, info os.FileInfo, err error) error {
-		if err != nil {
-			return nil
-		}
-		if info.IsDir() {
-			if n := info.Name(); n == ".git" || n == "testdata" || n == "lib" {
-				return filepath.SkipDir
-			}
-			return nil
-		}
-		if !strings.HasSuffix(path, ".go") || strings.HasSuffix(path, "_test.go") {
-			return nil
-		}
-		f, err := parser.ParseFile(fset, path, nil, 0)
-		if err != nil {
-			g.fail("pkgvars: %s does not parse", path)
-			return nil
-		}
-		rel, _ := filepath.Rel(g.repo, path)
-		dir := filepath.Dir(rel)
-		files = append(files, pvFile{dir, rel, f})
-		return nil
-	})
-	sort.Slice(files, func(i, j int) bool { return files[i].name < files[j].name })
 
-	// ---- package-level variables ----
-	type pv struct{ Dir, Name, Kind, File string }
-	var vars []pv
-	pkgVarNames := map[string]map[string]bool{}  // dir -> names
-	pkgSpecs := map[*ast.ValueSpec]string{}      // spec -> dir
-	pkgFuncNames := map[string]map[string]bool{} // dir -> top-level function names (to tell V.m from pkg.f)
-	for _, pf := range files {
-		for _, d := range pf.f.Decls {
-			switch d := d.(type) {
-			case *ast.GenDecl:
-				if d.Tok != token.VAR {
-					continue
-				}
-				for _, s := range d.Specs {
-					vs := s.(*ast.ValueSpec)
-					pkgSpecs[vs] = pf.dir
-					for i, n := range vs.Names {
-						if n.Name == "_" {
-							continue
-						}
-						if pkgVarNames[pf.dir] == nil {
-							pkgVarNames[pf.dir] = map[string]bool{}
-						}
-						pkgVarNames[pf.dir][n.Name] = true
-						vars = append(vars, pv{pf.dir, n.Name, pvKind(fset, vs, i), pf.name})
-					}
-				}
-			case *ast.FuncDecl:
-				if d.Recv == nil {
-					if pkgFuncNames[pf.dir] == nil {
-						pkgFuncNames[pf.dir] = map[string]bool{}
-					}
-					pkgFuncNames[pf.dir][d.Name.Name] = true
-				}
-			}
+	src := pvLoadSources(g)
+	var vars []pvVar
+	var sites, methods, shared []pvSite
+	for _, tags := range src.configs() {
+		w := src.world(tags)
+		for _, e := range w.errs {
+			g.fail("pkgvars: type-checking (tags %v): %s", tags, e)
 		}
+		a := newPvAnalysis(w)
+		a.run()
+		vars = append(vars, a.vars...)
+		sites = append(sites, a.sites...)
+		methods = append(methods, a.methods...)
+		shared = append(shared, a.shared...)
 	}
-	sort.Slice(vars, func(i, j int) bool {
+
+	sort.SliceStable(vars, func(i, j int) bool {
 		if vars[i].Dir != vars[j].Dir {
 			return vars[i].Dir < vars[j].Dir
 		}
-		return vars[i].Name < vars[j].Name
+		if vars[i].Name != vars[j].Name {
+			return vars[i].Name < vars[j].Name
+		}
+		return vars[i].Kind < vars[j].Kind
 	})
-
-	// struct fields of a shared type (per package, by name) and functions / methods whose results include a
-	// shared type (all packages, by name): s.node, s.registry.Template(name) denote shared values too
-	sharedFields := map[string]map[string]bool{}
-	sharedFuncs := map[string]bool{}
-	for _, pf := range files {
-		imports := pvImports(pf.f)
-		ast.Inspect(pf.f, func(n ast.Node) bool {
-			switch x := n.(type) {
-			case *ast.StructType:
-				for _, f := range x.Fields.List {
-					if pvIsSharedType(pf.dir, imports, f.Type) {
-						for _, nm := range f.Names {
-							if sharedFields[pf.dir] == nil {
-								sharedFields[pf.dir] = map[string]bool{}
-							}
-							sharedFields[pf.dir][nm.Name] = true
-						}
-					}
-				}
-			case *ast.FuncDecl:
-				if x.Type.Results != nil {
-					for _, r := range x.Type.Results.List {
-						if pvIsSharedType(pf.dir, imports, r.Type) {
-							sharedFuncs[x.Name.Name] = true
-						}
-					}
-				}
+	{ // the tag sets share most files
+		var u []pvVar
+		for i, v := range vars {
+			if i == 0 || v != vars[i-1] {
+				u = append(u, v)
 			}
-			return true
-		})
+		}
+		vars = u
 	}
-
-	// ---- write sites ----
-	var sites, methods, shared []pvSite
-	for _, pf := range files {
-		imports := pvImports(pf.f)
-		// is this identifier a package-level variable of the file's own package?
-		ownVar := func(id *ast.Ident) bool {
-			if !pkgVarNames[pf.dir][id.Name] {
-				return false
-			}
-			if id.Obj == nil {
-				return true // declared in another file of the package
-			}
-			if vs, ok := id.Obj.Decl.(*ast.ValueSpec); ok {
-				_, isPkg := pkgSpecs[vs]
-				return isPkg
-			}
-			return false
-		}
-		// root of an lvalue / operand: strips index, selector, star, paren, slice; reports (dir, var)
-		var root func(e ast.Expr) (string, string, bool)
-		root = func(e ast.Expr) (string, string, bool) {
-			switch x := e.(type) {
-			case *ast.Ident:
-				if ownVar(x) {
-					return pf.dir, x.Name, true
-				}
-			case *ast.ParenExpr:
-				return root(x.X)
-			case *ast.StarExpr:
-				return root(x.X)
-			case *ast.IndexExpr:
-				return root(x.X)
-			case *ast.SliceExpr:
-				return root(x.X)
-			case *ast.SelectorExpr:
-				if id, ok := x.X.(*ast.Ident); ok && id.Obj == nil {
-					if dir, ok := imports[id.Name]; ok {
-						if pkgVarNames[dir][x.Sel.Name] {
-							return dir, x.Sel.Name, true
-						}
-						return "", "", false
-					}
-				}
-				return root(x.X)
-			}
-			return "", "", false
-		}
-		for _, d := range pf.f.Decls {
-			fd, ok := d.(*ast.FuncDecl)
-			if !ok || fd.Body == nil {
-				continue
-			}
-			fname := fd.Name.Name
-			if fd.Recv != nil && len(fd.Recv.List) == 1 {
-				fname = "(" + pvExprString(fset, fd.Recv.List[0].Type) + ")." + fname
-			}
-			add := func(list *[]pvSite, dir, v, kind string, pos token.Pos) {
-				*list = append(*list, pvSite{Dir: dir, Func: pf.dir + ":" + fname, Var: v, Kind: kind, File: pf.name, Line: fset.Position(pos).Line})
-			}
-			// ---- shared-typed names of this function (parameters, receiver, typed locals, range/assign aliases) ----
-			sharedName := map[*ast.Object]bool{}  // values of a shared type
-			sharedSlice := map[*ast.Object]bool{} // slices obtained from a field of a shared value
-			cappedSlice := map[*ast.Object]bool{} // ... by a full slice expression e[:n:n] (capacity = length)
-			isCapped := func(e ast.Expr) bool {
-				se, ok := e.(*ast.SliceExpr)
-				return ok && se.Slice3 && se.High != nil && se.Max != nil && pvExprString(fset, se.High) == pvExprString(fset, se.Max)
-			}
-			trackShared := pf.dir == "soyhtml" || pf.dir == "soyjs" || pf.dir == "template"
-			markFields := func(fl *ast.FieldList) {
-				if fl == nil {
-					return
-				}
-				for _, f := range fl.List {
-					if pvIsSharedType(pf.dir, imports, f.Type) {
-						for _, n := range f.Names {
-							if n.Obj != nil {
-								sharedName[n.Obj] = true
-							}
-						}
-					}
-				}
-			}
-			if trackShared {
-				markFields(fd.Recv)
-				markFields(fd.Type.Params)
-			}
-			// is e an expression that denotes (part of) a shared value?  (rooted at a shared name through
-			// selectors, indexes, derefs, type assertions, Children() calls)
-			var sharedRooted func(e ast.Expr) bool
-			sharedRooted = func(e ast.Expr) bool {
-				switch x := e.(type) {
-				case *ast.Ident:
-					return x.Obj != nil && (sharedName[x.Obj] || sharedSlice[x.Obj])
-				case *ast.ParenExpr:
-					return sharedRooted(x.X)
-				case *ast.StarExpr:
-					return sharedRooted(x.X)
-				case *ast.IndexExpr:
-					return sharedRooted(x.X)
-				case *ast.SliceExpr:
-					return sharedRooted(x.X)
-				case *ast.SelectorExpr:
-					return sharedRooted(x.X) || sharedFields[pf.dir][x.Sel.Name]
-				case *ast.TypeAssertExpr:
-					return sharedRooted(x.X)
-				case *ast.CallExpr:
-					// a method of a shared value returning part of it: node.Children()
-					if se, ok := x.Fun.(*ast.SelectorExpr); ok {
-						if se.Sel.Name == "Children" && sharedRooted(se.X) {
-							return true
-						}
-						return sharedFuncs[se.Sel.Name] // s.registry.Template(name)
-					}
-					if id, ok := x.Fun.(*ast.Ident); ok && id.Obj == nil {
-						return sharedFuncs[id.Name]
-					}
-				}
-				return false
-			}
-			// does a store to the lvalue l write memory of a shared value?  (the object written is the one the
-			// BASE of l denotes: s.node = n writes s, s.node.Text = t writes the node)
-			writesThrough := func(l ast.Expr) bool {
-				for {
-					p, ok := l.(*ast.ParenExpr)
-					if !ok {
-						break
-					}
-					l = p.X
-				}
-				switch x := l.(type) {
-				case *ast.SelectorExpr:
-					return sharedRooted(x.X)
-				case *ast.IndexExpr:
-					return sharedRooted(x.X)
-				case *ast.SliceExpr:
-					return sharedRooted(x.X)
-				case *ast.StarExpr:
-					return sharedRooted(x.X)
-				}
-				return false
-			}
-			ast.Inspect(fd.Body, func(n ast.Node) bool {
-				switch st := n.(type) {
-				case *ast.AssignStmt:
-					for i, l := range st.Lhs {
-						if dir, v, ok := root(l); ok {
-							kind := "assign"
-							if _, isId := l.(*ast.Ident); !isId {
-								kind = "assign-element"
-							}
-							add(&sites, dir, v, kind, st.Pos())
-						}
-						if !trackShared {
-							continue
-						}
-						// a write through a shared value: LHS is not a plain local name and is rooted at a shared name
-						if id, isId := l.(*ast.Ident); !isId {
-							if writesThrough(l) {
-								add(&shared, pf.dir, pvExprString(fset, l), "assign-through", st.Pos())
-							}
-						} else if id.Obj != nil && i < len(st.Rhs) && len(st.Lhs) == len(st.Rhs) {
-							// alias tracking for locals: x := <shared-rooted expr> makes x shared (a pointer, a slice or a
-							// map obtained from a shared value is still shared memory)
-							r := st.Rhs[i]
-							if ta, ok := r.(*ast.TypeAssertExpr); ok {
-								r = ta.X
-							}
-							if sharedRooted(r) {
-								if isCapped(r) && st.Tok == token.DEFINE {
-									cappedSlice[id.Obj] = true
-								} else {
-									delete(cappedSlice, id.Obj)
-								}
-								switch r.(type) {
-								case *ast.SelectorExpr, *ast.IndexExpr, *ast.SliceExpr, *ast.CallExpr:
-									sharedSlice[id.Obj] = true
-								case *ast.Ident, *ast.StarExpr, *ast.ParenExpr:
-									sharedName[id.Obj] = true
-								}
-							}
-							// x = append(<shared-rooted slice>, ...): may write into the shared backing array
-							if ce, ok := st.Rhs[i].(*ast.CallExpr); ok {
-								if f, ok := ce.Fun.(*ast.Ident); ok && f.Name == "append" && len(ce.Args) > 0 && sharedRooted(ce.Args[0]) {
-									kind := "append-to"
-									if a0, ok := ce.Args[0].(*ast.Ident); ok && a0.Obj != nil && cappedSlice[a0.Obj] {
-										kind = "append-to-capped" // cap = len: append copies, the shared array is not written
-									}
-									add(&shared, pf.dir, pvExprString(fset, ce.Args[0]), kind, st.Pos())
-								}
-							}
-						}
-					}
-					// two-value forms (x, ok := n.(*T)) and switch x := n.(type) are handled below
-					if trackShared && len(st.Lhs) == 2 && len(st.Rhs) == 1 {
-						r := st.Rhs[0]
-						if ta, ok := r.(*ast.TypeAssertExpr); ok {
-							r = ta.X
-						}
-						// x, ok := n.(*T) / x, ok := reg.Template(name) / x, ok := m[k]
-						if sharedRooted(r) {
-							if id, ok := st.Lhs[0].(*ast.Ident); ok && id.Obj != nil {
-								sharedName[id.Obj] = true
-							}
-						}
-					}
-				case *ast.TypeSwitchStmt:
-					if !trackShared {
-						break
-					}
-					if as, ok := st.Assign.(*ast.AssignStmt); ok && len(as.Rhs) == 1 {
-						if ta, ok := as.Rhs[0].(*ast.TypeAssertExpr); ok && sharedRooted(ta.X) {
-							// the symbol of a type switch has one implicit object per clause
-							for _, c := range st.Body.List {
-								cc := c.(*ast.CaseClause)
-								ast.Inspect(cc, func(m ast.Node) bool {
-									if id, ok := m.(*ast.Ident); ok && id.Obj != nil && id.Name == as.Lhs[0].(*ast.Ident).Name {
-										if id.Obj.Decl == ast.Node(cc) || id.Obj.Decl == ast.Node(as) {
-											sharedName[id.Obj] = true
-										}
-									}
-									return true
-								})
-							}
-						}
-					}
-				case *ast.DeclStmt:
-					if !trackShared {
-						break
-					}
-					if gd, ok := st.Decl.(*ast.GenDecl); ok && gd.Tok == token.VAR {
-						for _, s := range gd.Specs {
-							vs := s.(*ast.ValueSpec)
-							if len(vs.Names) == 2 && len(vs.Values) == 1 && vs.Names[0].Obj != nil {
-								r := vs.Values[0]
-								if ta, ok := r.(*ast.TypeAssertExpr); ok {
-									r = ta.X
-								}
-								if sharedRooted(r) {
-									sharedName[vs.Names[0].Obj] = true
-								}
-								continue
-							}
-							for i, nm := range vs.Names {
-								if nm.Obj == nil {
-									continue
-								}
-								if i < len(vs.Values) {
-									r := vs.Values[i]
-									if ta, ok := r.(*ast.TypeAssertExpr); ok {
-										r = ta.X
-									}
-									if sharedRooted(r) {
-										if isCapped(r) {
-											cappedSlice[nm.Obj] = true
-										}
-										switch r.(type) {
-										case *ast.SelectorExpr, *ast.IndexExpr, *ast.SliceExpr, *ast.CallExpr:
-											sharedSlice[nm.Obj] = true
-										default:
-											sharedName[nm.Obj] = true
-										}
-									}
-								}
-							}
-						}
-					}
-				case *ast.IncDecStmt:
-					if dir, v, ok := root(st.X); ok {
-						add(&sites, dir, v, "incdec", st.Pos())
-					}
-					if trackShared {
-						if _, isId := st.X.(*ast.Ident); !isId && writesThrough(st.X) {
-							add(&shared, pf.dir, pvExprString(fset, st.X), "incdec-through", st.Pos())
-						}
-					}
-				case *ast.RangeStmt:
-					if st.Tok == token.ASSIGN {
-						for _, e := range []ast.Expr{st.Key, st.Value} {
-							if e == nil {
-								continue
-							}
-							if dir, v, ok := root(e); ok {
-								add(&sites, dir, v, "range-assign", st.Pos())
-							}
-						}
-					}
-					if trackShared && st.Tok == token.DEFINE && sharedRooted(st.X) {
-						// the elements of a shared slice are shared values (pointers to nodes)
-						if id, ok := st.Value.(*ast.Ident); ok && id.Obj != nil {
-							sharedName[id.Obj] = true
-						}
-					}
-				case *ast.UnaryExpr:
-					if st.Op == token.AND {
-						if dir, v, ok := root(st.X); ok {
-							add(&sites, dir, v, "address-taken", st.Pos())
-						}
-					}
-				case *ast.CallExpr:
-					if id, ok := st.Fun.(*ast.Ident); ok && id.Obj == nil && (id.Name == "delete" || id.Name == "copy" || id.Name == "clear") && len(st.Args) > 0 {
-						if dir, v, ok := root(st.Args[0]); ok {
-							add(&sites, dir, v, id.Name, st.Pos())
-						}
-						if trackShared && sharedRooted(st.Args[0]) {
-							add(&shared, pf.dir, pvExprString(fset, st.Args[0]), id.Name+"-through", st.Pos())
-						}
-					}
-					if se, ok := st.Fun.(*ast.SelectorExpr); ok {
-						// V.m(...) on a variable of this package, or pkg.V.m(...)
-						if dir, v, ok := root(se.X); ok {
-							add(&methods, dir, v, se.Sel.Name, st.Pos())
-						}
-						if trackShared && (se.Sel.Name == "Sort" || se.Sel.Name == "Strings" || se.Sel.Name == "Slice" || se.Sel.Name == "Stable") {
-							// sort.X(shared slice) sorts in place
-							if id, ok := se.X.(*ast.Ident); ok && id.Name == "sort" && len(st.Args) > 0 && sharedRooted(st.Args[0]) {
-								add(&shared, pf.dir, pvExprString(fset, st.Args[0]), "sort-in-place", st.Pos())
-							}
-						}
-					}
-				}
-				return true
-			})
-		}
-	}
-
 	less := func(l []pvSite) func(i, j int) bool {
 		return func(i, j int) bool {
 			a, b := l[i], l[j]
@@ -644,12 +305,26 @@ func (g *gen) pkgVars() {
 			if a.Kind != b.Kind {
 				return a.Kind < b.Kind
 			}
-			return a.Line < b.Line
+			if a.File != b.File {
+				return a.File < b.File
+			}
+			if a.Line != b.Line {
+				return a.Line < b.Line
+			}
+			return a.Via < b.Via
 		}
 	}
-	sort.SliceStable(sites, less(sites))
-	sort.SliceStable(methods, less(methods))
-	sort.SliceStable(shared, less(shared))
+	uniq := func(l []pvSite) []pvSite {
+		sort.SliceStable(l, less(l))
+		var u []pvSite
+		for i, s := range l {
+			if i == 0 || s != l[i-1] {
+				u = append(u, s)
+			}
+		}
+		return u
+	}
+	sites, methods, shared = uniq(sites), uniq(methods), uniq(shared)
 
 	// ---- emission: into Generated/PkgState.v, a file of its own next to -out, so that a change of these lists
 	// rebuilds C09's closure only and not every model that imports Generated/Tables.v ----
@@ -657,7 +332,7 @@ func (g *gen) pkgVars() {
 	pp := func(format string, args ...interface{}) { fmt.Fprintf(&pb, format, args...) }
 	pp("(* GENERATED by /verif/go/cmd/tablegen (pkgvars.go) from the Go sources of robfig/soy.\n   Do not edit: regenerated on every check run. *)\n")
 	pp("From Soy Require Import Model.Bytes.\nOpen Scope N_scope.\n\n")
-	pp("(* package-level variables of the non-test sources: (package directory, name, kind of initialiser) *)\n")
+	pp("(* package-level variables of the non-test sources: (package directory, name, kind of type / initialiser) *)\n")
 	pp("Definition pkg_vars : list (bstr * bstr * bstr) := [\n")
 	for i, v := range vars {
 		sep := ";"
@@ -684,14 +359,18 @@ func (g *gen) pkgVars() {
 			if i == len(rows)-1 {
 				sep = ""
 			}
-			pp("  (%s, %s, %s, %s)%s   (* %s *)\n", coqBytes(s.Dir), coqBytes(s.Var), coqBytes(s.Func), coqBytes(s.Kind), sep, pvComment(s.Dir+"  "+s.Var+"  in "+s.Func+": "+s.Kind))
+			via := ""
+			if s.Via != "" {
+				via = "  via " + s.Via
+			}
+			pp("  (%s, %s, %s, %s)%s   (* %s *)\n", coqBytes(s.Dir), coqBytes(s.Var), coqBytes(s.Func), coqBytes(s.Kind), sep, pvComment(s.Dir+"  "+s.Var+"  in "+s.Func+": "+s.Kind+via))
 		}
 		pp("].\n")
 	}
 	k4 := func(s pvSite) string { return s.Dir + "\x00" + s.Var + "\x00" + s.Func + "\x00" + s.Kind }
 	emit("pkg_var_writes", "writes to package-level variables in function bodies: (package of the variable, variable, package:function, kind)", sites, k4)
 	emit("pkg_var_methods", "methods called on package-level variables: (package of the variable, variable, package:function, method)", methods, k4)
-	emit("shared_type_writes", "writes through syntax-tree / registry / bundle typed values in soyhtml, soyjs, template: (package, written expression, package:function, kind)", shared, k4)
+	emit("shared_type_writes", "writes through syntax-tree / registry / bundle typed values in soyhtml, soyjs, template, directly or in a callee: (package, written expression, package:function, kind)", shared, k4)
 
 	if fl := flag.Lookup("out"); fl != nil && fl.Value.String() != "" {
 		outPath := filepath.Join(filepath.Dir(fl.Value.String()), "PkgState.v")
@@ -701,6 +380,9 @@ func (g *gen) pkgVars() {
 				g.fail("pkgvars: cannot write %s", outPath)
 			}
 		}
+	}
+	if vars == nil {
+		vars = []pvVar{}
 	}
 	g.js["pkg_vars"] = vars
 	g.js["pkg_var_writes"] = sites
